@@ -274,21 +274,99 @@ func isZeroCanon(v string) bool {
 	return v == "0" || v == "false" || v == `""` || v == "nil"
 }
 
+// singleTerm strips the parentheses Poly.String puts around a polynomial that consists of one term.
+func singleTerm(s string) string {
+	if len(s) < 2 || s[0] != '(' || s[len(s)-1] != ')' {
+		return s
+	}
+	inner := s[1 : len(s)-1]
+	if !balanced(inner) {
+		return s
+	}
+	depth := 0
+	for i := 0; i+2 < len(inner); i++ {
+		switch inner[i] {
+		case '(':
+			depth++
+		case ')':
+			depth--
+		}
+		if depth == 0 && inner[i:i+3] == " + " {
+			return s
+		}
+	}
+	return inner
+}
+
+func balanced(s string) bool {
+	depth := 0
+	for _, c := range s {
+		switch c {
+		case '(':
+			depth++
+		case ')':
+			depth--
+			if depth < 0 {
+				return false
+			}
+		}
+	}
+	return depth == 0
+}
+
 // fpShapeMode: floating-point operations are not normalised as polynomials over the reals; they keep the shape of the
 // expression (commutative operands sorted), so that two terms are equal only if they round in the same way.
 var fpShapeMode bool
 
 func (e *evalCtx) poly(t *Term) Poly {
 	if fpShapeMode && t.Flt {
+		// IEEE identities kept: x+y = y+x, x*y = y*x, x-y = x+(-y), -(-x) = x
+		// fpNeg takes the (parenthesised) string of a term and returns the bare string of its negation
+		fpNeg := func(s string) string {
+			inner := singleTerm(s)
+			if strings.HasPrefix(inner, "fpneg(") && strings.HasSuffix(inner, ")") && balanced(inner[len("fpneg("):len(inner)-1]) {
+				return singleTerm(inner[len("fpneg(") : len(inner)-1])
+			}
+			if r, ok := new(big.Rat).SetString(inner); ok {
+				return r.Neg(r).RatString()
+			}
+			return "fpneg(" + s + ")"
+		}
+		// isNeg: the (parenthesised) term is a negation; returns the parenthesised operand
+		isNeg := func(s string) (string, bool) {
+			inner := singleTerm(s)
+			if strings.HasPrefix(inner, "fpneg(") && strings.HasSuffix(inner, ")") && balanced(inner[len("fpneg("):len(inner)-1]) {
+				return inner[len("fpneg(") : len(inner)-1], true
+			}
+			return s, false
+		}
 		switch t.Op {
-		case "add", "mul":
-			parts := []string{e.poly(t.Args[0]).String(), e.poly(t.Args[1]).String()}
+		case "add", "sub":
+			a, b := e.poly(t.Args[0]).String(), e.poly(t.Args[1]).String()
+			if t.Op == "sub" {
+				b = "(" + fpNeg(b) + ")"
+			}
+			parts := []string{a, b}
 			sort.Strings(parts)
-			return polyAtom("fp" + t.Op + "(" + parts[0] + "," + parts[1] + ")")
-		case "sub", "div":
-			return polyAtom("fp" + t.Op + "(" + e.poly(t.Args[0]).String() + "," + e.poly(t.Args[1]).String() + ")")
+			return polyAtom("fpadd(" + parts[0] + "," + parts[1] + ")")
+		case "mul", "div":
+			// (-x)*y = -(x*y), (-x)/y = -(x/y): rounding is symmetric in the sign
+			a, na := isNeg(e.poly(t.Args[0]).String())
+			b, nb := isNeg(e.poly(t.Args[1]).String())
+			var s string
+			if t.Op == "mul" {
+				parts := []string{a, b}
+				sort.Strings(parts)
+				s = "fpmul(" + parts[0] + "," + parts[1] + ")"
+			} else {
+				s = "fpdiv(" + a + "," + b + ")"
+			}
+			if na != nb {
+				s = fpNeg("(" + s + ")")
+			}
+			return polyAtom(s)
 		case "neg":
-			return polyAtom("fpneg(" + e.poly(t.Args[0]).String() + ")")
+			return polyAtom(fpNeg(e.poly(t.Args[0]).String()))
 		}
 	}
 	switch t.Op {
